@@ -77,62 +77,7 @@ def run(check, an: Analysis):
     wrapper = _scope.wrapper_callee(an)
 
     # ---- H ------------------------------------------------------------------
-    n_handlers = 0
-    for module, try_node, handler in an.p.all_handlers():
-        if not _handler_can_see_signal(an, module, handler):
-            continue
-        fn = an.p.enclosing_function(module, try_node)
-        if fn is None:
-            continue
-        n_handlers += 1
-        where = '%s:%d' % (module.relpath, handler.lineno)
-        construct = '%s:except %s' % (short(fn.qn), ast.unparse(handler.type)
-                                      if handler.type is not None else '<bare>')
-        if fn is wrapper.fn:
-            check.instance('H', construct, True, where,
-                           'designated sink: the task wrapper records the outcome',
-                           nontrivial=False)
-            continue
-        if fn.qn in SINKS:
-            ok = True
-            detail = 'named sink: %s' % SINKS[fn.qn]
-            if fn.qn.endswith('_run_payload'):
-                body_suspends = any(isinstance(n, (ast.Await, ast.AsyncWith, ast.AsyncFor,
-                                                   ast.Yield, ast.YieldFrom))
-                                    for stmt in try_node.body for n in ast.walk(stmt))
-                ok = not body_suspends
-                detail += ' (try body suspension free: %s)' % ok
-            check.instance('H', construct, ok, where, detail, nontrivial=False)
-            continue
-        owner = an.p.enclosing_self_class(fn)
-        recvs = [owner.qn] if owner is not None else [None]
-        if fn.kind == 'ctxgen':
-            pass
-        verdict, bad, n_caught = True, None, 0
-        whichs = ['none', 'exc:ext:Exception', 'genexit'] if fn.name == '__aexit__' \
-            else [None]
-        for recv in recvs:
-            callee = Callee(fn, recv)
-            for which in whichs:
-                for path in an.paths(callee, which):
-                    for index, event in enumerate(path.events):
-                        if event.kind != 'handler' or event.node is not handler or \
-                                event['exc'] not in SIGNALS:
-                            continue
-                        n_caught += 1
-                        exc = event['excobj']
-                        reraised = path.kind == 'raise' and path.outcome[1].cls == exc.cls
-                        if reraised:
-                            continue
-                        if _own_signal_identified(path, index, handler, fn):
-                            continue
-                        verdict = False
-                        bad = bad or (path, index)
-        check.instance('H', construct, verdict, where,
-                       'caught internal signals are re-raised or identified as own '
-                       '(%d catches on paths)' % n_caught,
-                       path=rules.path_lines(*bad) if bad else None, analysed=n_caught)
-    check.floor('H', 8, 'handlers that can see an internal signal')
+    check_handlers(check, an, 'H')
     # no handler may be narrower than BaseException where protocol state is protected:
     # that is decided per primitive by the pairing rules (C09/C11/C12/C13); here only
     # the order of the wrapper's handlers (specific before generic)
@@ -179,26 +124,7 @@ def run(check, an: Analysis):
     check.instance('D', '_run_events:skips-revoked', n > 0, where_fn(run_events.fn),
                    'every resumption of a coroutine is dominated by the truth test of the popped '
                    'activation (%d resumptions on paths)' % n, analysed=n)
-    act_bool = an.method('usim._core.loop.Activation', '__bool__')
-    from ..norm import function_predicate, bool_term as _bt, equivalent_terms as _eqv
-    try:
-        got = function_predicate(act_bool.node)
-    except Exception:
-        got = None
-    check.instance('D', 'Activation.__bool__', got is not None and _eqv(got, _bt(ast.parse(
-        'self.signal is None or not self.signal._revoked', mode='eval').body)),
-        where_fn(act_bool), 'an activation counts unless its signal was revoked')
-    revoke = an.method('usim._core.loop.Interrupt', 'revoke')
-    stores = [n_ for n_ in ast.walk(revoke.node) if isinstance(n_, ast.Assign)]
-    check.instance('D', 'Interrupt.revoke', len(stores) == 1 and
-                   ast.unparse(stores[0]) == 'self._revoked = True', where_fn(revoke),
-                   'revoking sets the flag the loop tests')
-    init = an.method('usim._core.loop.Interrupt', '__init__')
-    inits = {ast.unparse(n_.targets[0]): ast.unparse(n_.value)
-             for n_ in ast.walk(init.node) if isinstance(n_, ast.Assign)}
-    check.instance('D', 'Interrupt.__init__', inits.get('self._revoked') == 'False' and
-                   inits.get('self.scheduled') == 'False', where_fn(init),
-                   'a fresh signal is neither revoked nor scheduled')
+    check_activation_flags(check, an, 'D')
     schedule = an.callee(LOOP, 'schedule')
     verdict, n, n_given = True, 0, 0
     for path in an.paths(schedule):
@@ -270,6 +196,93 @@ def _own_signal_identified(path, index, handler, fn) -> bool:
             if created and key_truth(event) is True:
                 return True
     return False
+
+
+def check_handlers(check, an: Analysis, rule: str):
+    """every handler of the package that can catch an internal signal re-raises it, unless
+    it identified the signal as its own (the task wrapper is the one designated sink)"""
+    wrapper = _scope.wrapper_callee(an)
+    n_handlers = 0
+    for module, try_node, handler in an.p.all_handlers():
+        if not _handler_can_see_signal(an, module, handler):
+            continue
+        fn = an.p.enclosing_function(module, try_node)
+        if fn is None:
+            continue
+        n_handlers += 1
+        where = '%s:%d' % (module.relpath, handler.lineno)
+        construct = '%s:except %s' % (short(fn.qn), ast.unparse(handler.type)
+                                      if handler.type is not None else '<bare>')
+        if fn is wrapper.fn:
+            check.instance(rule, construct, True, where,
+                           'designated sink: the task wrapper records the outcome',
+                           nontrivial=False)
+            continue
+        if fn.qn in SINKS:
+            ok = True
+            detail = 'named sink: %s' % SINKS[fn.qn]
+            if fn.qn.endswith('_run_payload'):
+                body_suspends = any(isinstance(n, (ast.Await, ast.AsyncWith, ast.AsyncFor,
+                                                   ast.Yield, ast.YieldFrom))
+                                    for stmt in try_node.body for n in ast.walk(stmt))
+                ok = not body_suspends
+                detail += ' (try body suspension free: %s)' % ok
+            check.instance(rule, construct, ok, where, detail, nontrivial=False)
+            continue
+        owner = an.p.enclosing_self_class(fn)
+        recvs = [owner.qn] if owner is not None else [None]
+        if fn.kind == 'ctxgen':
+            pass
+        verdict, bad, n_caught = True, None, 0
+        whichs = ['none', 'exc:ext:Exception', 'genexit'] if fn.name == '__aexit__' \
+            else [None]
+        for recv in recvs:
+            callee = Callee(fn, recv)
+            for which in whichs:
+                for path in an.paths(callee, which):
+                    for index, event in enumerate(path.events):
+                        if event.kind != 'handler' or event.node is not handler or \
+                                event['exc'] not in SIGNALS:
+                            continue
+                        n_caught += 1
+                        exc = event['excobj']
+                        reraised = path.kind == 'raise' and path.outcome[1].cls == exc.cls
+                        if reraised:
+                            continue
+                        if _own_signal_identified(path, index, handler, fn):
+                            continue
+                        verdict = False
+                        bad = bad or (path, index)
+        check.instance(rule, construct, verdict, where,
+                       'caught internal signals are re-raised or identified as own '
+                       '(%d catches on paths)' % n_caught,
+                       path=rules.path_lines(*bad) if bad else None, analysed=n_caught)
+    check.floor(rule, 8, 'handlers that can see an internal signal')
+
+
+def check_activation_flags(check, an: Analysis, rule: str):
+    """an activation counts unless its signal was revoked: nothing else can take a queued
+    wake-up back (a trigger scheduled for a date stays scheduled)"""
+    act_bool = an.method('usim._core.loop.Activation', '__bool__')
+    from ..norm import function_predicate, bool_term as _bt, equivalent_terms as _eqv
+    try:
+        got = function_predicate(act_bool.node)
+    except Exception:
+        got = None
+    check.instance(rule, 'Activation.__bool__', got is not None and _eqv(got, _bt(ast.parse(
+        'self.signal is None or not self.signal._revoked', mode='eval').body)),
+        where_fn(act_bool), 'an activation counts unless its signal was revoked')
+    revoke = an.method('usim._core.loop.Interrupt', 'revoke')
+    stores = [n_ for n_ in ast.walk(revoke.node) if isinstance(n_, ast.Assign)]
+    check.instance(rule, 'Interrupt.revoke', len(stores) == 1 and
+                   ast.unparse(stores[0]) == 'self._revoked = True', where_fn(revoke),
+                   'revoking sets the flag the loop tests')
+    init = an.method('usim._core.loop.Interrupt', '__init__')
+    inits = {ast.unparse(n_.targets[0]): ast.unparse(n_.value)
+             for n_ in ast.walk(init.node) if isinstance(n_, ast.Assign)}
+    check.instance(rule, 'Interrupt.__init__', inits.get('self._revoked') == 'False' and
+                   inits.get('self.scheduled') == 'False', where_fn(init),
+                   'a fresh signal is neither revoked nor scheduled')
 
 
 def check_own_wakeup_is_fresh(check, an: Analysis, rule: str):
